@@ -1,6 +1,7 @@
 (* C14 phase 2: agreement of the two reader models on modules without blackbox instances (part B2) *)
 From stdpp Require Import strings gmap sets pretty.
-From CG Require Import Model.FastVerilog Proofs.FastVerilogProofs Proofs.ApiProofs Gen.Gen_fastv.
+From CG Require Import Proofs.FvA0.
+From CG Require Import Model.FastVerilog Proofs.FastVerilogProofs Gen.Gen_fastv.
 Open Scope string_scope.
 
 Lemma foldl_insert_other {A} (f : A → string) (h : A → ninfo) (l : list A) : ∀ (g : circuit) m,
